@@ -77,13 +77,14 @@ type RunLine struct {
 
 // ReplayFile is what VIOLATION lines point to.
 type ReplayFile struct {
-	Property  string    `json:"property"`
-	Violation Violation `json:"violation"`
-	LogHash   string    `json:"log_hash"`
-	Plan      *Plan     `json:"plan"`
-	Trace     []string  `json:"trace,omitempty"`
-	Summary   any       `json:"summary,omitempty"`
-	FoundAt   string    `json:"found_at_seed"`
+	Property   string    `json:"property"`
+	Violation  Violation `json:"violation"`
+	LogHash    string    `json:"log_hash"`
+	Plan       *Plan     `json:"plan"`
+	Trace      []string  `json:"trace,omitempty"`
+	Summary    any       `json:"summary,omitempty"`
+	FoundAt    string    `json:"found_at_seed"`
+	Reproduced string    `json:"reproduced,omitempty"`
 }
 
 func nontrivial(r *Run) bool {
@@ -311,8 +312,19 @@ func TestSim(t *testing.T) {
 				mp, mr, mv, n := minimise(t, prop, p, v.Class)
 				line.MinRuns += n
 				rf := ReplayFile{Property: propID, Violation: *mv, Plan: mp, LogHash: fmt.Sprintf("%016x", mr.Sim.LogHash()), Summary: summarize(mr), FoundAt: fmt.Sprintf("%d/%d", seed, i)}
-				// re-run once with the trace to store it
+				// re-run with the trace to store it; count how often the minimal plan reproduces
+				// (Go's random choice among simultaneously ready select cases is not seedable)
+				repro := 0
+				for k := 0; k < 2; k++ {
+					if _, kvs := runOne(t, prop, mp.Clone(), false); hasClass(kvs, v.Class) != nil {
+						repro++
+					}
+				}
 				tr, tvs := runOne(t, prop, mp.Clone(), true)
+				if hasClass(tvs, v.Class) != nil {
+					repro++
+				}
+				rf.Reproduced = fmt.Sprintf("%d of 3 re-runs of the minimised plan", repro)
 				if tr.Sim != nil && hasClass(tvs, v.Class) != nil {
 					lines := tr.Sim.LogLines()
 					if len(lines) > 400 {
